@@ -63,6 +63,15 @@ TABLE = {
  "C18": [("Proofs/StructBound", n) for n in ["pop_bound_sound", "pop_bound_bounded", "core_bounded_crun", "view_bounded_state_after", "sma_pop", "cyber_pop"]] +
         [("Proofs/StructSched", n) for n in ["sched_pop_bound", "sched_pop_bounded"]],
 }
+EXTRA3 = {
+ "C01": [("Proofs/ChainSpec", n) for n in ["chain_closed_form", "standalone_closed_form", "chain2_closed_form"]],
+ "C02": [("Proofs/ChainInst", n) for n in ["sma_in_any_chain", "cs_sma", "cs_cumulative", "cs_min", "cs_max", "cs_roc", "cs_welford", "cs_vst", "cs_vsct", "cs_hln", "cs_entropy"]],
+ "C04": [("Proofs/ChainInst", n) for n in ["cs_ema", "cs_alma"]],
+ "C05": [("Proofs/ChainInst", n) for n in ["cs_rsi", "cs_myrsi"]],
+ "C06": [("Proofs/ChainInst", n) for n in ["cs_cti", "cs_net", "cs_cog"]],
+ "C11": [("Proofs/ChainInst", n) for n in ["cs_ss", "cs_roofing", "cs_laguerre", "cs_cyber", "cs_trendflex", "cs_reflex", "cs_lrsi"]],
+ "C13": [("Proofs/ChainInst", n) for n in ["cs_drawdown", "cs_lnret", "cs_wrolling"]],
+}
 EXTRA2 = {
  "C09": [("Proofs/Stab2SS", n) for n in ["flex_filt_bibo", "flex_filt_fading", "flex_rate_range"]] +
         [("Proofs/Stab2Flex", n) for n in ["trendflex_dev_bounded", "trendflex_dev_fading", "trendflex_ms_bounded", "trendflex_ms_fading", "trendflex_fading_nondegenerate"]] +
@@ -123,8 +132,9 @@ def header_of(path, name):
     return " ".join(m.group(1).split())
 
 def _merge_extra():
-    for k, v in EXTRA2.items():
-        EXTRA[k] = EXTRA.get(k, []) + v
+    for ex in (EXTRA2, EXTRA3):
+        for k, v in ex.items():
+            EXTRA[k] = EXTRA.get(k, []) + v
 
 def imports_for(pid, items):
     mods = []
